@@ -30,6 +30,15 @@ vars == <<idx, verdict>>
 Pairs(rep) == [a \in DOMAIN rep |-> <<rep[a].s, rep[a].e>>]
 Aligned(rep) == \A a \in DOMAIN rep : rep[a].s >= 1 /\ rep[a].raw = ""
 
+\* scope of the pattern-semantics properties (C01-C07, C11): the pattern cannot match the empty
+\* sequence, capture definitions lie on the exactly-once spine, and the corner the statements leave open
+\* (an operand-level $not facing the empty operand field of an operand-less instruction) does not arise
+OnotCorner(P, L) ==
+    \E it \in InsNodes(P) :
+        /\ \E k \in DOMAIN it.kids : HasKind(it.kids[k], {"onot"})
+        /\ \E n \in DOMAIN L : L[n].ops = <<>> /\ NameHolds(it.name, L[n].mn, FALSE)
+InScope(P, L) == ~Nullable(P) /\ CapsOnSpine(P) /\ ~OnotCorner(P, L)
+
 \* the first failing clause, or "ok:F" / "ok:N" (found / not found)
 Check(c) ==
     LET P  == Pats[c.p]
@@ -37,7 +46,10 @@ Check(c) ==
         n  == Len(L0)
         ranged == c.range # <<>>
     IN
-    IF c.outcome # "ok" THEN "rej:NoError"
+    \* randomly generated cases (code -> spec direction) are checked to be inside the scope of the
+    \* properties BY TLC; what is outside is skipped, never judged
+    IF c.rand /\ ~InScope(P, L0) THEN "skip:OutOfScope"
+    ELSE IF c.outcome # "ok" THEN "rej:NoError"
     ELSE IF ~ranged /\ c.stream # Encode(L0) THEN "rej:C10_StreamIsEncode"
     ELSE IF ranged /\ ~StreamWellFormed(c.stream) THEN "rej:C10_WellFormed"
     ELSE IF ranged /\ ~AllowedTagging(L0, Decode(c.stream), c.range[1], c.range[2]) THEN "rej:C18_Tagging"
